@@ -345,4 +345,12 @@ def main():
 
 
 if __name__ == '__main__':
-    main()
+    try:
+        main()
+    except SystemExit:
+        raise
+    except BaseException:          # a crash of the checker is never a verdict about miros
+        import traceback
+        traceback.print_exc()
+        print('CHECKER-ERROR: the checker itself failed (see traceback); no verdict')
+        sys.exit(3)
